@@ -4,7 +4,9 @@
    reading of those statements (Exit<S>() = OnExit of the current state object, Enter<T>() = new T + its OnEntry). *)
 From Coq Require Import String List Bool Arith.
 From KV Require Import Lib.TableDef Model.TTable Model.CsShape Spec.TableInterp Gen.CsTmpl Model.CsSM
-                       Proofs.TTableProofs Proofs.SmlProofs Proofs.CsProofs Model.DeclShape Gen.DeclTmpl Model.Decls Proofs.DeclProofs.
+                       Proofs.TTableProofs Proofs.SmlProofs Proofs.CsProofs Model.DeclShape Gen.DeclTmpl Model.Decls Proofs.DeclProofs
+                       Lib.Str Model.Engine Model.EngineSM Model.EngineDomain Model.EngineDomain16 Spec.RefExpand16 Model.CsRender Proofs.CsBridge.
+Import KV.Model.CsShape KV.Model.CsSM.
 Import ListNotations.
 Open Scope string_scope.
 
@@ -19,6 +21,33 @@ Theorem C10_handlers : forall t s e gv n,
     let '(tr, c, n') := step_rows_quiet gv n s e (rows_for t s e) in (tr, mkCs c c n').
 Proof. exact cs_handler_sem. Qed.
 Print Assumptions C10_handlers.
+
+(* THE ENGINE'S OUTPUT.  For every table with well-formed rows: the file that the engine's pipeline (Model/EngineSM.v) produces
+   from the per-state > per-event > per-transition block of the SHIPPED TEMPLATEInternals.cs (Model/CsRender.cs_block16: the lines of
+   Gen/Templates.v between PER_STATETRANSITION_BEGIN / _END, first-filtered with the state machine name X, read into the template
+   syntax and checked to render back) is one class text per state class (cs_classes), in it one Trigger<e> override per listed
+   handler (cs_handlers); the lines of that override's PER_GUARDTRANSITION block read, one by one and without their indentation, as
+   the C# statements of the tokens cs_handler t s e; and those tokens parse and execute the table (C10_handlers).  The harness
+   finds this text verbatim in the real <Name>Internals.cs on every case. *)
+Theorem C10_handlers_engine : forall tt structs protos msgs m dict,
+  tt_model tt structs protos msgs = Some m -> dict_ok dict = true -> forallb row_ok (table_of tt) = true ->
+  engine16 m dict cs_block16 = Some (concat_lines (map tab4 (flat_map (cs_class_text (table_of tt)) (cs_classes (table_of tt)))))
+  /\ forall s e gv n,
+       cs_reads_all "X" (cs_handler_text (table_of tt) s e) (cs_handler (table_of tt) s e) = true
+       /\ exists prog, parse_braces (cs_handler (table_of tt) s e) = Some prog /\
+            cs_out (exec_cs gv e prog (mkCs s s n)) =
+            let '(tr, c, n') := step_rows_quiet gv n s e (rows_for (table_of tt) s e) in (tr, mkCs c c n').
+Proof. exact cs_handlers_engine. Qed.
+Print Assumptions C10_handlers_engine.
+
+(* the reading alone: every table (rows well formed or not) *)
+Theorem C10_handler_reads : forall (t : table) s e, cs_reads_all "X" (cs_handler_text t s e) (cs_handler t s e) = true.
+Proof. exact cs_handler_reads_b. Qed.
+Print Assumptions C10_handler_reads.
+
+Example C10_block_is_shipped : cs_block16_opt = Some cs_block16 /\ cs_block16 = [TransBlock "    " "    " cs_tbody] /\ Nat.ltb 25 (List.length cs_block_lines) = true.
+Proof. split; [|split]; vm_compute; reflexivity. Qed.
+Print Assumptions C10_block_is_shipped.
 
 (* Handlers exist exactly for the listed pairs: a listed pair has rows, an unlisted pair has none (the base class's
    empty virtual Trigger<e> runs: the event is ignored, which is what the interpreter computes for no rows). *)
